@@ -490,14 +490,34 @@ def check_determinism(case, stats):
                     k, base_key[0], base_key[1], key[0], key[1]))
 
 
+def check_twice(case, stats):
+    """freshly constructed default instances, twice in the same process: results (ids included, no normalisation) must be equal"""
+    text = case["text"]
+    if gh.names_existing_path(text):
+        return
+    stats.case(text, True, sample={"name": case.get("name")})
+
+    def once():
+        p, c = gh.Parser(), gh.Compiler()
+        try:
+            d = p.parse(text)
+        except gh.CompositeParserException as e:
+            return ("err", [gh.err_tuple(x) for x in e.errors])
+        return ("ok", d, c.compile(dict(d, uri="u")))
+    a_, b_ = once(), once()
+    if a_ != b_:
+        raise Violation(case, "the same document processed twice with freshly constructed Parser()/Compiler() gives different results: %s" % diff_text(a_, b_, "first", "second"))
+
+
 def unit_determinism(a):
     stats = Stats()
+    sweep(stats, [{"sub": "twice", "name": k, "text": v} for k, v in sorted(POOL.items())], check_twice)
     sweep(stats, [{"sub": "determinism", "runs": [[0, "forward"], [1, "reverse"], [2, "interleaved"]]}], check_determinism)
     return stats
 
 
 def replay(case, stats):
-    return {"history": check_history, "stream-history": check_stream_history, "reset": check_reset, "schedule": check_schedule, "determinism": check_determinism}[case["sub"]](case, stats)
+    return {"history": check_history, "stream-history": check_stream_history, "reset": check_reset, "schedule": check_schedule, "determinism": check_determinism, "twice": check_twice}[case["sub"]](case, stats)
 
 
 def run(ctx):
